@@ -707,19 +707,20 @@ def afterHeader (rest : Bytes) (out : Option Out) : M Unit :=
     let _ ← feedLoop rest
     pure ()
 
-/-- `Parser.feed` while awaiting `_ReadUntil(b'\r\n\r\n', max_bytes)` -/
+/-- `Parser.feed` while awaiting `_ReadUntil(b'\r\n\r\n', max_bytes)`.  When an exception leaves
+    `parse()` the parser is finished (`deadParser`, as in `feedLoop`). -/
 def feedHeader (data : Bytes) : M Unit := fun s =>
   let buf := s.p.buf ++ data
   match findSep Gen.headerSep buf with
   | none =>
-    if headerTooLong buf.length then .err (.parse "expected separator") s
+    if headerTooLong buf.length then .err (.parse "expected separator") { s with p := deadParser s.p }
     else .ok () { s with p := { s.p with buf := buf } }
   | some i =>
     let e := i + Gen.headerSep.length
-    if headerTooLong e then .err (.parse "expected separator") s
+    if headerTooLong e then .err (.parse "expected separator") { s with p := deadParser s.p }
     else
       match resume s.cfg.v s.p (buf.take e) with
-      | .error x => .err x s
+      | .error x => .err x { s with p := deadParser s.p }
       | .ok (p', out) => afterHeader (buf.drop e) out { s with p := p' }
 
 /-- `stream.feed(data)` driven to exhaustion inside `WebSocket.feed`'s `try` body -/
